@@ -47,7 +47,7 @@ class PassWatcher:
         self.nontrivial = 0
         self.ref_checked = 0
         self.ref_limit = ref_limit
-        self.exact = all(TYPES[p["type"]].exact_bc for p in pc["props"]) and not _zero_cap(pc)
+        self.exact = all(TYPES[p["type"]].exact_bc for p in pc["props"])
         self.cur_filters = 0
         self.pb = None  # set by the caller: the nucs Problem (propagators sorted by init)
 
